@@ -311,6 +311,9 @@ class CallStack(deque):
                 for pred in list(graph.predecessors(node)):
                     graph.add_edge(pred, caller)
             graph.remove_node(node)
+        if cells.is_cached and cells.has_node(node[KEY]):
+            # the formula assigned its own element before it failed
+            cells.on_clear_trace(node[KEY])
 
         refs = []
         while self.refstack:
